@@ -14,7 +14,6 @@ use crate::handlers::hunk_header::{AmbiguousDiffMinusCounter, ParsedHunkHeader};
 use crate::handlers::{self, merge_conflict};
 use crate::paint::Painter;
 use crate::style::DecorationStyle;
-use crate::utils;
 
 #[derive(Clone, Debug, PartialEq, Eq)]
 pub enum State {
@@ -210,18 +209,11 @@ impl<'a> StateMachine<'a> {
         match String::from_utf8(raw_line_bytes.to_vec()) {
             Ok(utf8) => self.ingest_line_utf8(utf8),
             Err(_) => {
-                let raw_line = String::from_utf8_lossy(raw_line_bytes);
-                // As for valid UTF-8 below, a max_line_length of 0 means no limit.
-                let truncated_len = if self.config.max_line_length > 0 {
-                    utils::round_char_boundary::floor_char_boundary(
-                        &raw_line,
-                        self.config.max_line_length,
-                    )
-                } else {
-                    raw_line.len()
-                };
-                self.raw_line = raw_line[..truncated_len].to_string();
-                self.line.clone_from(&self.raw_line);
+                // Replace the invalid bytes, then treat the line like any other: in particular
+                // it is truncated with regard to its escape sequences, which are removed from
+                // the text the handlers look at.
+                let raw_line = String::from_utf8_lossy(raw_line_bytes).to_string();
+                self.ingest_line_utf8(raw_line)
             }
         }
     }
